@@ -51,7 +51,9 @@ def doc_lines(L: Dict[str, Any]) -> List[str]:
     tok = token(fmt, prob)
     t = lambda p: (" " + tok) if (pos == p and tok) else ""
     lead = ["Section Title", "=============", ""] if L.get("lead") == "title" else []
-    lines = lead + ["Summary line one%s" % t("p1"), "summary line two.", "",
+    # (written as an escape sequence: the character is in the docstring, not in the source line)
+    sepc = {"nel": "\\x85", "ls": "\\u2028"}.get(L.get("sep", "none"), " ")
+    lines = lead + ["Summary line one%s" % t("p1"), "summary%sline two." % sepc, "",
              "Second paragraph line one", "second line%s end." % t("p2l2"), ""]
     if fmt == "epytext":
         lines += ["  - item line one", "    item line two%s" % t("item"), ""]
@@ -68,7 +70,9 @@ def doc_lines(L: Dict[str, Any]) -> List[str]:
         lines += [":note: field body line one", "    field body two%s" % t("field")]
         if prob == "unkfield":
             lines += [":unknownfield: text"]
-        if prob == "param":
+        if prob == "param" and L.get("cons"):
+            lines += [":Parameters:", "    a", "        the arg", "    nosuch", "        text"]
+        elif prob == "param":
             lines += [":param nosuch: text"]
     elif fmt == "google":
         if prob == "unkfield":
@@ -408,6 +412,15 @@ def kf_leading_ws(w: Dict[str, Any]) -> bool:
             and not (exp["lo"] <= got[0] <= exp["hi"]) and exp["lo"] <= got[0] - 1 <= exp["hi"])
 
 
+def kf_docutils_sep(w: Dict[str, Any]) -> bool:
+    """Python twin of Lines.tla KF_DocutilsSep: reST family, a character that str.splitlines() takes for a line boundary
+    (U+2028, U+0085) before the problem: docutils counts one line more than the file has."""
+    lay, exp = w.get("layout") or {}, w.get("expected") or {}
+    got = w.get("observed", {}).get("lines") or []
+    return (w.get("invariant") == "ObsAcceptable" and lay.get("sep", "none") != "none" and lay.get("fmt") in ("restructuredtext", "google", "numpy")
+            and len(got) == 1 and not (exp["lo"] <= got[0] <= exp["hi"]) and exp["lo"] <= got[0] - 1 <= exp["hi"])
+
+
 def kf_napoleon_beyond(w: Dict[str, Any]) -> bool:
     """Python twin of Lines.tla KF_Napoleon: google / numpy section with typed entries: the line counted in the text napoleon
     produced (one extra :type: line per entry) lies past the closing quotes of the docstring."""
@@ -432,6 +445,7 @@ CONSTANTS Source = "{source}"
   Ks = {ks}
   Indents = {inds}
   BlankCounts = {{0, 1, 2}}
+  Seps = {{"none", "ls", "nel"}}
   RstLineNotConverted = {"TRUE" if os.environ.get("VERIF_C16_MODEL") == "prefix" else "FALSE"}
   LeadingWsKept = {"TRUE" if os.environ.get("VERIF_C16_LEADWS") == "prefix" else "FALSE"}
 CONSTRAINT Emit
@@ -456,6 +470,7 @@ def run(ctx: Ctx) -> int:
     ctx.register_matcher("rst-markup-line-off-by-one", kf_rst_line_not_converted)
     ctx.register_matcher("leading-ws-line-shift", kf_leading_ws)
     ctx.register_matcher("napoleon-line-beyond-docstring", kf_napoleon_beyond)
+    ctx.register_matcher("docutils-extra-line-boundaries", kf_docutils_sep)
     nproc = max(2, min(NCPU, 16))
 
     # ================================================================= Lines: spec -> code
@@ -501,7 +516,8 @@ def run(ctx: Ctx) -> int:
         wit = {"layout": o["lay"], "expected": exp, "observed": {"lines": o["lines"], "msgs": o["msgs"]},
                "key": "lines:%s:%s:%s:%s:%s%s" % (o["lay"]["fmt"], o["lay"]["prob"], o["lay"]["pos"], o["lay"]["kind"],
                                                  "typed" if o["lay"]["typed"] else "", "longws" if o["lay"]["longws"] else "")
-               + ("title" if o["lay"].get("lead") == "title" else "") + ("tight" if o["lay"].get("tight") else "")}
+               + ("title" if o["lay"].get("lead") == "title" else "") + ("tight" if o["lay"].get("tight") else "")
+               + (o["lay"].get("sep", "none") if o["lay"].get("sep", "none") != "none" else "") + ("cons" if o["lay"].get("cons") else "")}
         if len(o["lines"]) != 1:
             ctx.violation({"invariant": "ObsOne", **wit})          # the planted problem lost, or reported twice
         elif not o["path_ok"]:
@@ -518,7 +534,7 @@ def run(ctx: Ctx) -> int:
             ctx.drift_note({"layout": o["lay"], "model": rec["impl"], "real": o["lines"][0]})
             dk = "%s/%s/%s/args=%s/typed=%s/longws=%s: real-model=%d" % (
                 o["lay"]["fmt"], o["lay"]["prob"], o["lay"]["pos"], o["lay"]["kind"] in ("function", "method", "class"),
-                o["lay"]["typed"], str(o["lay"]["longws"]) + "/" + o["lay"].get("lead", "") + "/tight=%s" % o["lay"].get("tight"),
+                o["lay"]["typed"], str(o["lay"]["longws"]) + "/" + o["lay"].get("lead", "") + "/tight=%s/sep=%s/cons=%s" % (o["lay"].get("tight"), o["lay"].get("sep"), o["lay"].get("cons")),
                 o["lines"][0] - rec["impl"])
             drift_classes[dk] = drift_classes.get(dk, 0) + 1
         if o["id"] % 1500 == 1:
